@@ -256,3 +256,9 @@ pub assume_specification<T, K: Ord, F: FnMut(&T) -> K> [<[T]>::sort_by_key] (v: 
 pub assume_specification<'a, T: Copy> [std::option::Option::<&T>::copied] (o: Option<&'a T>) -> (r: Option<T>)
     ensures r == (match o { Some(x) => Some(*x), None => None }),
 ;
+pub assume_specification<T: Ord + core::marker::Destruct> [std::cmp::min] (a: T, b: T) -> (r: T)
+    ensures T::obeys_cmp_spec() ==> r == (if b.cmp_spec(&a) == std::cmp::Ordering::Less { b } else { a }),
+;
+pub assume_specification<T: Ord + core::marker::Destruct> [std::cmp::max] (a: T, b: T) -> (r: T)
+    ensures T::obeys_cmp_spec() ==> r == (if a.cmp_spec(&b) == std::cmp::Ordering::Greater { a } else { b }),
+;
